@@ -746,11 +746,12 @@ func Enter(name string, args ...any) {
 	if e == nil || e.aborting {
 		return
 	}
-	if e.enterSw[name] {
-		Point(KEnter, 0)
-	}
+	// taps first: the call has happened (its arguments exist) before any switch at this point
 	for _, fn := range e.taps[name] {
 		fn(args...)
+	}
+	if e.enterSw[name] {
+		Point(KEnter, 0)
 	}
 }
 
